@@ -20,12 +20,20 @@ PATH = os.path.join(ROOT, "known_findings.json")
 PATH = os.environ.get("LOV_FINDINGS", PATH)
 
 
+_CACHE = None
+
+
 def load():
-    if not os.path.exists(PATH):
-        return []
-    with open(PATH) as fh:
-        data = json.load(fh)
-    return data.get("findings", [])
+    """Read once per process: generators consult the open findings on every draw, and a file that changes under a running
+    search would make the strategy definition inconsistent (Hypothesis FlakyStrategyDefinition)."""
+    global _CACHE
+    if _CACHE is None:
+        if not os.path.exists(PATH):
+            _CACHE = []
+        else:
+            with open(PATH) as fh:
+                _CACHE = json.load(fh).get("findings", [])
+    return _CACHE
 
 
 class Findings:
